@@ -658,6 +658,69 @@ func ruleSocketDir(c *Ctx) {
 				}
 			}
 		}
+		if !ok {
+			// through a local: dir, err := os.MkdirTemp(...); c.unixSocketCfg.socketDir = dir
+			// - every path from the creation to the runner constructor passes the store
+			sg := p.Graph(start)
+			runnerFn := p.FieldObj(modPath, "ClientConfig", "RunnerFunc")
+			for _, call := range start.Calls() {
+				if p.CalleeName(start, call) != "os.MkdirTemp" {
+					continue
+				}
+				dv := assignedVar(p, sinfo, call)
+				mk := sg.NodeOf(call)
+				if dv == nil || dv.IsField() || mk == nil {
+					continue
+				}
+				isStore := func(m *Node) bool {
+					as, isAs := m.Ast.(*ast.AssignStmt)
+					if !isAs || len(as.Lhs) != len(as.Rhs) {
+						return false
+					}
+					for i, l := range as.Lhs {
+						if SelField(sinfo, l) == sockF && identObj(sinfo, ast.Unparen(as.Rhs[i])) == types.Object(dv) {
+							return true
+						}
+					}
+					return false
+				}
+				nStores, reDef := 0, false
+				for _, m := range sg.Nodes {
+					if m.Ast == nil {
+						continue
+					}
+					if isStore(m) {
+						nStores++
+					}
+					if m != mk {
+						if defs, _ := nodeDefsUses(sinfo, m.Ast); len(defs) > 0 {
+							if _, re := defs[dv]; re {
+								reDef = true
+							}
+						}
+					}
+				}
+				if nStores == 0 || reDef {
+					continue
+				}
+				seen := sg.ReachAfter(mk, isStore, nil)
+				feas := p.FeasibleReach(start, []*Node{mk}, isStore, nil)
+				leak := false
+				for m := range seen {
+					if m.Ast == nil || !feas[m] {
+						continue
+					}
+					for _, c2 := range callsIn(m.Ast) {
+						if se, isSel := ast.Unparen(c2.Fun).(*ast.SelectorExpr); isSel && SelField(sinfo, se) == runnerFn {
+							leak = true
+						}
+					}
+				}
+				if !leak {
+					ok = true
+				}
+			}
+		}
 		if ok {
 			c.R.Hold("R-RES/socketdir", p.Pos(start.Node()), start.Name, "created dir stored for Kill", "os.MkdirTemp result is stored in UnixSocketConfig.socketDir, the field Kill reads", true)
 		} else {
